@@ -136,6 +136,19 @@ CHECKS = {
              "probability claims by monotonicity of log).",
         technique="CrossHair symbolic execution (z3) over symbolic adjacency matrices vs. closed-form oracle",
         ref='4 C15'),
+    'C19': dict(
+        text="Bounded symbolic model checking of the real _add_ili (upsert SQL on the model), _ili.load / "
+             "is_ili (fake file) and add_lexical_resource in four interleavings (index->lexicon, "
+             "lexicon->index, index->lexicon->newer index, lexicon->index->index): rows of the index "
+             "(id, status, definition, missing columns, header case) are chosen by symbolic index; after "
+             "every index load only the ILI inventory may have changed (all other tables, ILI rowids, "
+             "synset-ILI links, proposed ILIs and the lexicon observation are compared), and the final "
+             "statuses / definitions equal the last file that lists each ILI in every interleaving.",
+        note=NOTE_COMMON + DB_NOTE + "One lexicon with i1 (own ILI definition), i2 and a proposed ILI; "
+             "index files of two rows; the API lists only ILIs used by installed lexicons, ILIs known only "
+             "to the index are compared in the table.",
+        technique="CrossHair symbolic execution (z3) of the real ILI loading code over an executable SQL model",
+        ref='4 C19'),
     'C18': dict(
         text="Bounded symbolic model checking of the real wn.validate checks: lexicons whose ids, "
              "references, relation targets/types, ILIs, parts of speech and texts are symbolic strings; "
